@@ -254,11 +254,16 @@ def r04_4(ck):
             'may alias a viewed value), colliding port updates stay '
             'separate, and steps created or moved by structural updates '
             'keep their layer (shared with C08 R08.8, C06 R06.2, C05 R05.6)')
-    from . import c05, c06, c08
+    from . import c05, c06, c07, c08, c16
     c08.r08_8(ck, rule='R04.4')
     c06.r06_2(ck)
     c05.r05_6(ck)
-    OLD, NEW = ('R06.2', 'R05.6'), 'R04.4'
+    # views of processes started together are rebuilt after every
+    # structural change, and a schema override stays with its process
+    c07.r07_1(ck)
+    c07.r07_2(ck)
+    c16.r16_7(ck)
+    OLD, NEW = ('R06.2', 'R05.6', 'R07.1', 'R07.2', 'R16.7'), 'R04.4'
 
     for o in ck.obligations:
         if o['rule'] in OLD:
